@@ -35,7 +35,9 @@ def render(src, data, use_async):
 # case: params [(name, default|None)], pos [int], kws [(name, int)], order (interleaving seed), var_args (bool)
 def call_source(case):
     params, pos, kws, order, use_vars = case
-    data = {}
+    # render arguments named like the parameters and like the surplus keywords: a parameter that gets no argument and has no
+    # default is UNDEFINED inside the macro -- it must not fall through to a global of the same name
+    data = {"a": 901, "b": 902, "c": 903, "x": 904, "y": 905}
     ptxt = []
     for n, d in params:
         if d is None:
